@@ -23,4 +23,3 @@ func PkgOfDir(dir string) string {
 	return run.Module + "/" + dir
 }
 
-func SelftestMain(args []string) int { return 2 }
